@@ -39,7 +39,7 @@ META = {
 QUICK_CONFIGS = [(1, "flat"), (2, "flat"), (3, "flat"), (5, "cyc2"), (6, "blk2"), (8, "flat")]
 WATCHDOG = 240
 ISOLATED_WATCHDOG = 120
-MAX_RERUNS = 40
+MAX_RERUNS = 10
 
 
 class Env:
@@ -118,10 +118,18 @@ def execute(env, unit, np, layout, cases, sync=False, timeout=WATCHDOG):
 
 BAD_RE = re.compile(r"^BAD (\d+) rank=(\d+) kind=([\w-]+)(.*)$")
 SIG_NAMES = {11: "SIGSEGV", 8: "SIGFPE", 6: "abort", 7: "SIGBUS"}
+HEAP_RE = re.compile(r"corrupted|double free|invalid next size|invalid pointer|munmap_chunk|malloc\(\):|free\(\):|"
+                     r"malloc_consolidate|realloc\(\):")
+# kinds of a run that does not reach its end (as opposed to a wrong buffer of a call that returned)
+CRASH_KINDS = ("SIGSEGV", "SIGFPE", "SIGBUS", "abort", "heap-corruption", "deadlock", "sig", "exit")
+
+
+def is_crash_kind(kind):
+    return kind.startswith(CRASH_KINDS)
 
 
 def parse(res, np):
-    """-> dict(done=bool, bads=[(idx, rank, kind, rest)], crash=(sig, [cur]) or None, ncases, nbytes, harness=msg or None)"""
+    """-> dict(complete, alldone, bads=[(idx, rank, kind, rest)], crash=(sig, [cur]) or None, nbytes, harness=msg or None)"""
     o = {"bads": [], "crash": None, "done": 0, "ncases": 0, "nbytes": 0, "harness": None}
     for line in res.out.splitlines():
         m = BAD_RE.match(line)
@@ -139,15 +147,18 @@ def parse(res, np):
                 o["nbytes"] += int(mm.group(3))
         elif line.startswith("HARNESS "):
             o["harness"] = line
-    o["complete"] = (o["done"] == np and res.rc == 0)
+    o["alldone"] = o["done"] == np          # every rank compared every buffer of every case
+    o["complete"] = o["alldone"] and res.rc == 0
     return o
 
 
 def failure_kind(res, p):
     """Kind of a run that did not reach its end."""
     err = res.err or ""
-    if "Deadlock detected" in err or "deadlock" in err.lower():
+    if "Deadlock detected" in err:
         return "deadlock"
+    if HEAP_RE.search(err):
+        return "heap-corruption"
     if p["crash"]:
         return SIG_NAMES.get(p["crash"][0], "sig%d" % p["crash"][0])
     if res.signal:
@@ -157,8 +168,9 @@ def failure_kind(res, p):
 
 def err_excerpt(res, n=6):
     lines = [l for l in (res.err or "").splitlines() if l.strip() and "Switch to algorithm" not in l]
-    keep = [l for l in lines if re.search(r"what\(\)|invalid_argument|Assertion|assert|xbt_die|Deadlock|exception|error", l, re.I)]
-    return " | ".join((keep or lines)[:n])[:900]
+    keep = [l for l in lines if re.search(r"what\(\)|invalid_argument|Assertion|assert|xbt_die|Deadlock|exception|error|corrupt|free\(",
+                                          l, re.I)]
+    return " | ".join((keep or lines)[:n])[:700]
 
 
 class Runner:
@@ -166,6 +178,15 @@ class Runner:
 
     def __init__(self, ctx, env):
         self.ctx, self.env = ctx, env
+        self.leftover = set()
+        self.known_crash = {}
+        for k in getattr(ctx, "_known", []):
+            if k.get("status") != "open":
+                continue
+            pat = k.get("key") or k.get("key_glob")
+            f = pat.split(":")
+            if len(f) >= 3 and is_crash_kind(f[-1]):
+                self.known_crash.setdefault(f[1], []).append((pat, f[-1]))
 
     def key(self, unit, np, layout, case, kind):
         return "C29:%s/%s:np=%s:lay=%s:%s:%s" % (unit[0], unit[1], G.np_class(np), G.lay_class(layout), G.case_class(case, np), kind)
@@ -174,49 +195,125 @@ class Runner:
         return {"unit": list(unit[:2]), "calls": unit[2], "variant": unit[3], "np": np, "layout": layout,
                 "cases": [G.case_line(c) for c in cases]}
 
-    def report_bads(self, unit, np, layout, cases, p, seen, context):
+    def what(self, unit, np, layout, case, text):
+        return "%s/%s np=%d layout=%s case [%s]: %s" % (unit[0], unit[1], np, layout, G.case_line(case), text)
+
+    # ---- wrong buffers of calls that returned ----------------------------------------------------------------------
+    def report_bads(self, unit, np, layout, cases, p, seen):
         byidx = {c["idx"]: c for c in cases}
+        refused = set()
         for idx, rank, kind, rest in p["bads"]:
             c = byidx.get(idx)
             if c is None:
                 continue
             if kind == "rc":
                 kind = "error-return"
+                if G.match_refusal(unit[0], unit[1], np, layout, c, "error-return %s" % rest):
+                    if idx not in refused:
+                        refused.add(idx)
+                        self.ctx.count("explicit_refusals")
+                    continue
             k = self.key(unit, np, layout, c, kind)
             if k in seen:
                 continue
             seen.add(k)
             self.ctx.count("wrong_buffers_or_codes")
             w = self.witness(unit, np, layout, [c])
-            w["context"] = [G.case_line(x) for x in context if x["idx"] <= idx][-400:]
-            self.ctx.violation(k, "%s/%s np=%d layout=%s case [%s]: rank %d %s %s" % (unit[0], unit[1], np, layout,
-                                                                                    G.case_line(c), rank, kind, rest), w)
+            w["context"] = [G.case_line(x) for x in cases if x["idx"] <= idx][-400:]
+            self.ctx.violation(k, self.what(unit, np, layout, c, "rank %d %s %s" % (rank, kind, rest)), w)
+        return refused
 
-    def isolate(self, unit, np, layout, cases, cand):
-        """Run the candidate cases alone; return (case, res, parsed) of the first that does not reach its end, or None."""
-        byidx = {c["idx"]: c for c in cases}
-        for idx in cand:
-            c = byidx.get(idx)
-            if c is None:
-                continue
-            res = execute(self.env, unit, np, layout, [c], timeout=ISOLATED_WATCHDOG)
-            self.ctx.count("isolation_runs")
-            if res.timed_out:
-                self.ctx.inconclusive("watchdog on an isolated case of %s/%s" % (unit[0], unit[1]))
-                continue
-            p = parse(res, np)
+    def credit(self, unit, np, layout, cases, p, refused=()):
+        ctx = self.ctx
+        ctx.evaluation(len(cases))
+        ctx.count("cases_compared", len(cases) - len(refused))
+        ctx.count("bytes_compared", p["nbytes"])
+        if np > 1:
+            badidx = {b[0] for b in p["bads"]}
+            for c in cases:
+                if c["idx"] not in badidx and G.count_class(c, np) != "0":
+                    ctx.nontrivial("%s/%s:%s:%s:%s:%s" % (unit[0], unit[1], G.np_class(np), G.lay_class(layout), c["coll"],
+                                                          G.case_class(c, np)))
+
+    # ---- one case alone --------------------------------------------------------------------------------------------
+    def single(self, unit, np, layout, case, seen, expected=None):
+        """Runs one case alone. Returns 'ok', 'refused', 'failed' or 'inconclusive'."""
+        ctx = self.ctx
+        res = execute(self.env, unit, np, layout, [case], timeout=ISOLATED_WATCHDOG)
+        ctx.count("single_case_runs")
+        if res.timed_out:
+            ctx.inconclusive("watchdog on a single case of %s/%s" % (unit[0], unit[1]))
+            return "inconclusive"
+        p = parse(res, np)
+        refused = self.report_bads(unit, np, layout, [case], p, seen)
+        if p["complete"] or (p["alldone"] and failure_kind(res, p) == "deadlock"):
             if not p["complete"]:
-                return c, res, p
-        return None
+                self.note_leftover(unit, np, layout)
+            self.credit(unit, np, layout, [case], p, refused)
+            return "ok"
+        if G.match_refusal(unit[0], unit[1], np, layout, case, res.err or ""):
+            ctx.count("explicit_refusals")
+            return "refused"
+        kind = failure_kind(res, p) + ("+at-exit" if p["alldone"] else "")
+        ctx.count("runs_not_reaching_end")
+        ctx.evaluation()
+        ctx.violation(self.key(unit, np, layout, case, kind), self.what(unit, np, layout, case, "%s; %s" % (kind, err_excerpt(res))),
+                      self.witness(unit, np, layout, [case]))
+        return "failed"
 
+    def note_leftover(self, unit, np, layout):
+        # every buffer of every rank was compared; the engine then complains about communications that nobody completed.
+        # The statement is about the buffers: this is recorded in the evidence but is not a violation of C29.
+        self.ctx.count("runs_ending_with_leftover_communications")
+        with self.env._lock:
+            self.leftover.add("%s/%s" % (unit[0], unit[1]))
+
+    def split_known(self, unit, np, layout, cases):
+        """Cases whose class is covered by an open known finding of a crashing kind are not left in the main run (every such
+        crash costs two more runs): one representative per finding is run alone (so that the finding is re-found), the
+        others are skipped and counted."""
+        import fnmatch
+        pats = self.known_crash.get("%s/%s" % (unit[0], unit[1]), [])
+        if not pats:
+            return cases, {}
+        main, groups = [], {}
+        for c in cases:
+            hit = None
+            for pat, kind in pats:
+                if fnmatch.fnmatchcase(self.key(unit, np, layout, c, kind), pat):
+                    hit = pat
+                    break
+            if hit is None:
+                main.append(c)
+            else:
+                groups.setdefault(hit, []).append(c)
+        return main, groups
+
+    def min_failing_prefix(self, unit, np, layout, cases, fails):
+        """Smallest prefix of cases for which fails(prefix) (binary search; the whole list is known to fail)."""
+        lo, hi = 1, len(cases)
+        while lo < hi:
+            mid = (lo + hi) // 2
+            r = fails(cases[:mid])
+            if r is None:
+                return None
+            if r:
+                hi = mid
+            else:
+                lo = mid + 1
+        return cases[:lo]
+
+    # ---- a whole list ----------------------------------------------------------------------------------------------
     def evaluate(self, unit, np, layout, cases):
         ctx = self.ctx
         seen = set()
-        todo = list(cases)
-        classes_ok = set()
+        todo, groups = self.split_known(unit, np, layout, cases)
+        for pat, grp in sorted(groups.items()):
+            self.single(unit, np, layout, grp[0], seen)
+            ctx.count("cases_skipped_class_of_a_known_crash", len(grp) - 1)
         for _ in range(MAX_RERUNS):
             if not todo:
-                break
+                return
             res = execute(self.env, unit, np, layout, todo)
             ctx.count("runs")
             if res.timed_out:
@@ -226,79 +323,77 @@ class Runner:
             if p["harness"]:
                 from verif import core
                 raise core.HarnessFailure("%s (%s/%s np=%d)" % (p["harness"], unit[0], unit[1], np))
-            self.report_bads(unit, np, layout, todo, p, seen, todo)
-            if p["complete"]:
-                ctx.evaluation(len(todo))
-                ctx.count("cases_compared", len(todo))
-                ctx.count("bytes_compared", p["nbytes"])
-                badidx = {b[0] for b in p["bads"]}
-                for c in todo:
-                    if c["idx"] not in badidx:
-                        classes_ok.add((G.case_class(c, np), c["coll"]))
-                break
-            # the run did not reach its end: which case, alone, fails ?
-            text = (res.err or "")
+            refused = self.report_bads(unit, np, layout, todo, p, seen)
+            kind = None if p["complete"] else failure_kind(res, p)
+            if p["alldone"] and kind == "deadlock":
+                self.note_leftover(unit, np, layout)
+                kind = None
+            if kind is None:
+                self.credit(unit, np, layout, todo, p, refused)
+                return
+            text = res.err or ""
             ref = G.match_refusal(unit[0], unit[1], np, layout, None, text)
             if ref and ref[0] == "run":
                 ctx.count("explicit_refusals")
                 ctx.count("cases_refused", len(todo))
                 return
             cur = [x for x in (p["crash"][1] if p["crash"] else []) if x >= 0]
-            cand = sorted(set(cur), key=lambda i: -cur.count(i))
-            kind = failure_kind(res, p)
-            found = self.isolate(unit, np, layout, todo, cand) if cand else None
-            suffix = ""
-            if found is None:
-                # not reproducible alone (or no CRASH line): run again with a point-to-point barrier between the cases
-                res2 = execute(self.env, unit, np, layout, todo, sync=True)
-                ctx.count("runs")
-                if res2.timed_out:
-                    ctx.inconclusive("smpirun watchdog (sync) %s/%s np=%d %s" % (unit[0], unit[1], np, layout))
+            lo = min(cur) if cur else None
+            fcase, fstate = None, None
+            if not p["alldone"]:
+                # which of the cases the ranks were in fails alone ?
+                byidx = {c["idx"]: c for c in todo}
+                for idx in sorted(set(cur), key=lambda i: -cur.count(i)):
+                    if idx in byidx:
+                        st = self.single(unit, np, layout, byidx[idx], seen)
+                        if st in ("failed", "refused"):
+                            fcase, fstate = byidx[idx], st
+                            break
+            if fcase is None:
+                # not reproducible alone, or the failure came after the last comparison: smallest failing prefix
+                def fails(prefix):
+                    r = execute(self.env, unit, np, layout, prefix)
+                    ctx.count("runs")
+                    if r.timed_out:
+                        ctx.inconclusive("smpirun watchdog (prefix search) %s/%s np=%d %s" % (unit[0], unit[1], np, layout))
+                        return None
+                    pp = parse(r, np)
+                    return not (pp["complete"] or (pp["alldone"] and failure_kind(r, pp) == "deadlock"))
+                upto = [c for c in todo if not cur or c["idx"] <= max(cur)] if not p["alldone"] else todo
+                if upto is not todo and not fails(upto):
+                    upto = todo
+                prefix = self.min_failing_prefix(unit, np, layout, upto, fails)
+                if prefix is None:
                     return
-                p2 = parse(res2, np)
-                if p2["complete"]:
-                    # only fails when the calls follow each other without barrier
-                    suffix, fres, fp = ":back-to-back", res, p
-                    fidx = max(cur) if cur else todo[-1]["idx"]
+                fcase = prefix[-1]
+                st = self.single(unit, np, layout, fcase, seen) if len(prefix) > 1 else "seq"
+                if st in ("failed", "refused"):
+                    fstate = st
                 else:
-                    cur2 = [x for x in (p2["crash"][1] if p2["crash"] else []) if x >= 0]
-                    suffix, fres, fp = ":in-sequence", res2, p2
-                    fidx = max(cur2) if cur2 else todo[-1]["idx"]
-                    kind = failure_kind(res2, p2)
-                fcase = next((c for c in todo if c["idx"] == fidx), todo[-1])
-                wcases = [c for c in todo if c["idx"] <= fcase["idx"]] if cur or suffix == ":in-sequence" else todo
-            else:
-                fcase, fres, fp = found
-                kind = failure_kind(fres, fp)
-                wcases = [fcase]
-                ref = G.match_refusal(unit[0], unit[1], np, layout, fcase, fres.err or "")
-                if ref:
-                    ctx.count("explicit_refusals")
-                    cls = G.case_class(fcase, np)
-                    drop = [c for c in todo if G.case_class(c, np) == cls and c["coll"] == fcase["coll"]]
-                    ctx.count("cases_refused", len(drop))
-                    todo = [c for c in todo if c not in drop]
-                    continue
-            k = self.key(unit, np, layout, fcase, kind + suffix)
-            ctx.count("runs_not_reaching_end")
-            ctx.violation(k, "%s/%s np=%d layout=%s case [%s]%s: %s; %s" % (unit[0], unit[1], np, layout, G.case_line(fcase),
-                                                                           suffix, kind, err_excerpt(fres)),
-                          self.witness(unit, np, layout, wcases))
-            ctx.evaluation()
+                    r = execute(self.env, unit, np, layout, prefix)
+                    ctx.count("runs")
+                    pp = parse(r, np)
+                    k2 = failure_kind(r, pp) + ("+at-exit" if pp["alldone"] else "") + ("+seq" if len(prefix) > 1 else "")
+                    ctx.count("runs_not_reaching_end")
+                    ctx.violation(self.key(unit, np, layout, fcase, k2),
+                                  self.what(unit, np, layout, fcase, "%s after %d earlier calls; %s" % (k2, len(prefix) - 1,
+                                                                                                     err_excerpt(r))),
+                                  self.witness(unit, np, layout, prefix))
+                    fstate = "failed"
+                lo = None
             # go on with what was not evaluated yet, leaving out the class of the failing case
-            cls = G.case_class(fcase, np)
-            lo = min(cur) if cur else fcase["idx"]
+            cls = (G.case_class(fcase, np), fcase["coll"])
+            if lo is not None:
+                passed = [c for c in todo if c["idx"] < lo]
+                ctx.evaluation(len(passed))
+                ctx.count("cases_compared", len(passed))
             before = len(todo)
-            todo = [c for c in todo if c["idx"] >= lo and not (G.case_class(c, np) == cls and c["coll"] == fcase["coll"])]
-            ctx.evaluation(max(0, before - len(todo) - 1))
-            if suffix:
-                return
-        else:
-            ctx.inconclusive("more than %d reruns for %s/%s np=%d %s" % (MAX_RERUNS, unit[0], unit[1], np, layout))
-        if np > 1:
-            for cls, call in classes_ok:
-                if "count=0:" not in cls:
-                    ctx.nontrivial("%s/%s:%s:%s:%s:%s" % (unit[0], unit[1], G.np_class(np), G.lay_class(layout), call, cls))
+            todo = [c for c in todo if (lo is None or c["idx"] >= lo) and (G.case_class(c, np), c["coll"]) != cls]
+            if fstate == "refused":
+                ctx.count("cases_refused", before - len(todo))
+            else:
+                ctx.count("cases_dropped_class_of_a_crash", before - len(todo))
+        ctx.inconclusive("more than %d reruns for %s/%s np=%d %s" % (MAX_RERUNS, unit[0], unit[1], np, layout))
 
 
 def configs_for(ctx):
@@ -342,8 +437,24 @@ def cases_for(ctx, unit, np, layout):
     return G._number(cases)
 
 
+def _keylog(ctx):
+    """Development aid: C29_KEYLOG=<file> appends every reported key (listed or not) with its description."""
+    path = os.environ.get("C29_KEYLOG")
+    if not path:
+        return
+    orig, lock = ctx.violation, threading.Lock()
+
+    def logged(key, what, witness):
+        with lock:
+            with open(path, "a") as f:
+                f.write("%s\t%s\n" % (key, what.replace("\n", " ")[:600]))
+        return orig(key, what, witness)
+    ctx.violation = logged
+
+
 def run(ctx):
     env = Env()
+    _keylog(ctx)
     try:
         units, jobs = jobs_for(ctx, env)
         ctx.count("algorithm_pairs", len(units))
@@ -357,6 +468,8 @@ def run(ctx):
                 ctx.sample({"unit": "%s/%s" % (unit[0], unit[1]), "np": np, "layout": layout, "cases": len(cases),
                             "first": G.case_line(cases[0])})
         ctx.pmap(one, jobs)
+        if runner.leftover:
+            ctx.extra["units_leaving_communications_behind"] = sorted(runner.leftover)
     finally:
         env.close()
 
